@@ -105,6 +105,7 @@ func checkC18(r *core.Run) {
 		}
 		checkGenesisFields(r, m)
 		checkParamKeys(r, m)
+		ruleExportUnmodified(r, "E6-all", m)
 	}
 	r.Floor("written_prefixes", total, 26)
 	r.Floor("genesis_modules", len(mods), 6)
@@ -522,4 +523,79 @@ func checkParamKeys(r *core.Run, m string) {
 		}
 	}
 	r.Count("param_keys", len(names))
+}
+
+// ruleExportUnmodified (E6-all, clause export-unmodified): ExportGenesis does
+// not write through a GenesisState list after it has been read from the store:
+// no store whose address is reached from a load of a GenesisState field (or
+// from the getter's result) through index/field steps. A rewritten record is a
+// state the chain never had (e.g. a reward with the pending share added while
+// the debt snapshot stays: after import the share is claimable twice).
+func ruleExportUnmodified(r *core.Run, id, m string) {
+	gs := r.P.LookupType(prog.ModulePath+"/x/"+m+"/types", "GenesisState")
+	exp := genesisFunc(r, m, "ExportGenesis")
+	if gs == nil || exp == nil {
+		r.Undecide(id, core.Key(id, m, "export-unmodified", "anchor"), "", "GenesisState / ExportGenesis of module "+m+" not found")
+		return
+	}
+	st, _ := gs.Underlying().(*types.Struct)
+	n := 0
+	bad := map[string]string{}
+	for _, b := range exp.Blocks {
+		for _, ins := range b.Instrs {
+			sto, ok := ins.(*ssa.Store)
+			if !ok {
+				continue
+			}
+			// walk the address towards its root; a direct store to the GenesisState field itself is the assignment, not a rewrite
+			v := sto.Addr
+			steps := 0
+			for {
+				switch x := v.(type) {
+				case *ssa.FieldAddr:
+					if steps > 0 || !namedIs(x.X.Type(), gs) {
+						v = x.X
+						steps++
+						continue
+					}
+				case *ssa.IndexAddr:
+					v = x.X
+					steps++
+					continue
+				case *ssa.UnOp:
+					if fa, ok := x.X.(*ssa.FieldAddr); ok && namedIs(fa.X.Type(), gs) && steps > 0 && st != nil {
+						bad[st.Field(fa.Field).Name()] = r.P.Pos(sto.Pos())
+					}
+				case *ssa.Call:
+					if steps > 0 {
+						// element of a slice returned by a getter that feeds a genesis field
+						for _, ref := range *x.Referrers() {
+							if s2, ok := ref.(*ssa.Store); ok {
+								if fa, ok := s2.Addr.(*ssa.FieldAddr); ok && namedIs(fa.X.Type(), gs) && st != nil {
+									bad[st.Field(fa.Field).Name()] = r.P.Pos(sto.Pos())
+								}
+							}
+						}
+					}
+				}
+				break
+			}
+			n++
+		}
+	}
+	if st != nil {
+		for i := 0; i < st.NumFields(); i++ {
+			fn := st.Field(i).Name()
+			if _, isSlice := st.Field(i).Type().Underlying().(*types.Slice); !isSlice || strings.HasPrefix(fn, "XXX_") {
+				continue
+			}
+			key := core.Key(id, m+".GenesisState."+fn, "export-unmodified")
+			if pos, isBad := bad[fn]; isBad {
+				r.Violate(id, key, pos, fmt.Sprintf("ExportGenesis of %s writes into the elements of GenesisState.%s after reading them from the store: the exported records differ from the chain's records (a state the chain never had is imported)", m, fn))
+			} else {
+				r.Discharge(id, key, r.P.FuncPos(exp), "no store through GenesisState."+fn+" in ExportGenesis")
+			}
+		}
+	}
+	r.Count("export_stores_scanned", n)
 }
